@@ -262,6 +262,38 @@ func runRecord() {
 	K = K2
 	gen(nil)
 	runLengthRows(fmt.Sprintf("RecordPattern/InReverse on rows whose runs end on storage word boundaries: all sequences of <=%d runs from {1,31,32,33,64} (rows up to %d px), both polarities, starts at every run boundary +-1", K2, 64*K2), seqs)
+	runWideRows()
+}
+
+// runWideRows: rows of 2040 .. 65536+ pixels: one long run in front of (or behind) every sequence of
+// up to four short runs, so that the recording starts, ends, or runs out of row beyond the widths
+// where an implementation would switch to a word-wise scan.
+func runWideRows() {
+	var tails [][]int
+	var gen func(cur []int, max int)
+	gen = func(cur []int, max int) {
+		tails = append(tails, append([]int{}, cur...))
+		if len(cur) == max {
+			return
+		}
+		for _, v := range []int{1, 3, 25} {
+			gen(append(cur, v), max)
+		}
+	}
+	gen(nil, 4)
+	var seqs [][]int
+	for _, L := range []int{2040, 2047, 2048, 2049, 4096, 65536} {
+		for _, t := range tails {
+			if L == 65536 && len(t) > 2 {
+				continue
+			}
+			seqs = append(seqs, append([]int{L}, t...))
+			if len(t) > 0 {
+				seqs = append(seqs, append(append([]int{}, t...), L))
+			}
+		}
+	}
+	runLengthRows(fmt.Sprintf("RecordPattern/InReverse on WIDE rows: one run of {2040, 2047, 2048, 2049, 4096, 65536} pixels in front of / behind every sequence of <=4 runs from {1,3,25} (65536: <=2), both polarities, starts at every run boundary +-1, counter counts {1..7, 10} [%d rows]", len(seqs)), seqs)
 }
 
 func runLengthRows(name string, seqs [][]int) {
@@ -302,7 +334,7 @@ func runLengthRows(name string, seqs [][]int) {
 				sort.Ints(ss)
 				d1 := dirtyRow(b, 1)
 				for _, s := range ss {
-					for _, n := range []int{1, 2, 3, 4, 6, 7, 10} {
+					for _, n := range []int{1, 2, 3, 4, 5, 6, 7, 10} {
 						if len(b)%32 != 0 {
 							checkRecord(l, d1, b, s, n, 1)
 						}
